@@ -171,6 +171,64 @@ def replay_model(qualname, self_class, res, ob):
 # main side
 # ---------------------------------------------------------------------------------------------
 
+def _child(spec, conn):
+    try:
+        import resource
+        lim = 6 * 1024 ** 3
+        resource.setrlimit(resource.RLIMIT_AS, (lim, lim))
+    except Exception:
+        pass
+    try:
+        r = run_task(spec)
+    except MemoryError:
+        r = {'kind': spec[0], 'name': spec[1], 'kw': {}, 'status': 'error', 'obligations': [],
+             'message': 'out of memory (6 GiB limit)'}
+    try:
+        conn.send(r)
+    except Exception as e:
+        conn.send({'kind': spec[0], 'name': spec[1], 'kw': {}, 'status': 'error', 'obligations': [],
+                   'message': f'result not transferable: {e}'})
+    conn.close()
+
+
+def run_pool(specs, jobs, wall_limit):
+    """one process per task (fork), at most `jobs` at a time, each killed after wall_limit seconds:
+    a solver call that ignores its timeout cannot hang or exhaust the machine"""
+    ctx = mp.get_context('fork')
+    results = [None] * len(specs)
+    pending = list(enumerate(specs))
+    running = {}
+    while pending or running:
+        while pending and len(running) < jobs:
+            i, sp = pending.pop(0)
+            parent, child = ctx.Pipe(duplex=False)
+            p = ctx.Process(target=_child, args=(sp, child), daemon=True)
+            p.start()
+            child.close()
+            running[i] = (p, parent, time.time())
+        for i in list(running):
+            p, conn, t0 = running[i]
+            if conn.poll(0.02):
+                try:
+                    results[i] = conn.recv()
+                except EOFError:
+                    results[i] = {'kind': specs[i][0], 'name': specs[i][1], 'kw': {}, 'status': 'error',
+                                  'obligations': [], 'message': 'worker died'}
+                p.join(5)
+                del running[i]
+            elif not p.is_alive():
+                results[i] = {'kind': specs[i][0], 'name': specs[i][1], 'kw': {}, 'status': 'error',
+                              'obligations': [], 'message': f'worker exited with code {p.exitcode}'}
+                del running[i]
+            elif time.time() - t0 > wall_limit:
+                p.kill()
+                p.join(5)
+                results[i] = {'kind': specs[i][0], 'name': specs[i][1], 'kw': dict(specs[i][2]), 'status': 'timeout',
+                              'obligations': [], 'message': f'task exceeded {wall_limit}s and was killed'}
+                del running[i]
+    return results
+
+
 def load_known_findings():
     p = ROOT / 'known_findings.json'
     if not p.exists():
@@ -198,12 +256,10 @@ def run_property(prop: Prop, tier='quick', seed=0, jobs=None) -> int:
     tasks = list(prop.tasks) + list(prop.bounded)
     specs = [(t.kind, t.name, t.kw, prop.modules, tier, seed) for t in tasks]
     jobs = jobs or min(16, max(1, len(specs)))
-    if len(specs) == 1 or os.environ.get('VERIF_SERIAL'):
+    if os.environ.get('VERIF_SERIAL'):
         results = [run_task(s) for s in specs]
     else:
-        ctx = mp.get_context('fork')
-        with ctx.Pool(jobs, maxtasksperchild=4) as pool:
-            results = pool.map(run_task, specs, chunksize=1)
+        results = run_pool(specs, jobs, wall_limit=900 if tier == 'thorough' else 420)
     known = load_known_findings()
     violations = []
     known_hits = []
@@ -225,7 +281,7 @@ def run_property(prop: Prop, tier='quick', seed=0, jobs=None) -> int:
         if r['status'] == 'error':
             faults.append(f'{t.key()}: {r["message"]}')
             continue
-        if r['status'] == 'untranslatable':
+        if r['status'] in ('untranslatable', 'timeout'):
             untranslatable.append(f'{t.key()}: {r["message"]}')
             continue
         solver_time += r.get('solver_time', 0) or 0
